@@ -38,8 +38,42 @@ import (
 
 const verifApiPassword = "verif-network-pw"
 
+// verifApiGate wraps the real FSM for raft: Apply blocks while the gate is closed, so raft appends
+// and commits entries to the LOG while the state machine does not advance — a node whose FSM
+// lags behind its log (replay after a restart, slow apply, follower catching up).  Snapshot and
+// Restore pass through to the embedded *FSM.
+type verifApiGate struct {
+	*FSM
+	mu     sync.Mutex
+	cond   *sync.Cond
+	closed bool
+}
+
+func (g *verifApiGate) Apply(l *raft.Log) interface{} {
+	g.mu.Lock()
+	for g.closed {
+		g.cond.Wait()
+	}
+	g.mu.Unlock()
+	return g.FSM.Apply(l)
+}
+
+func (g *verifApiGate) set(closed bool) {
+	g.mu.Lock()
+	g.closed = closed
+	g.mu.Unlock()
+	g.cond.Broadcast()
+}
+
+func (g *verifApiGate) isClosed() bool {
+	g.mu.Lock()
+	defer g.mu.Unlock()
+	return g.closed
+}
+
 type verifApiNode struct {
 	dir      string
+	gate     *verifApiGate
 	fsm      *FSM
 	logStore *raftstore.LevelDBStore
 	h        *api.HTTP
@@ -86,6 +120,9 @@ func verifApiCloseNode() {
 	n := verifApiCur
 	if n == nil {
 		return
+	}
+	if n.gate != nil {
+		n.gate.set(false)
 	}
 	if node != nil {
 		node.Shutdown().Error()
@@ -159,7 +196,9 @@ func verifApiNewNode() (*verifApiNode, error) {
 	}); err != nil {
 		return nil, err
 	}
-	node, err = raft.NewRaft(cfg, fsm, logStore, logStore, fss, trans)
+	gate := &verifApiGate{FSM: fsm}
+	gate.cond = sync.NewCond(&gate.mu)
+	node, err = raft.NewRaft(cfg, gate, logStore, logStore, fss, trans)
 	if err != nil {
 		return nil, err
 	}
@@ -172,7 +211,7 @@ func verifApiNewNode() (*verifApiNode, error) {
 	}
 	h := api.NewHTTP(ircServer, node, ircStore, outputStream, nil, *network, verifApiPassword, dir, "node0", true, 3)
 	fsm.ReplaceState = h.ReplaceState
-	n := &verifApiNode{dir: dir, fsm: fsm, logStore: logStore, h: h}
+	n := &verifApiNode{dir: dir, gate: gate, fsm: fsm, logStore: logStore, h: h}
 	verifApiCur = n
 	n.srv = verifApiServe()
 	n.client = &http.Client{
@@ -202,6 +241,9 @@ func verifApiLastIndex() uint64 { return node.LastIndex() }
 // verifApiBarrier waits until everything committed so far has been applied to the FSM.
 func verifApiBarrier() {
 	// not raft's Barrier(): that would itself append a log entry
+	if verifApiCur != nil && verifApiCur.gate != nil && verifApiCur.gate.isClosed() {
+		return // the state machine is held back on purpose
+	}
 	deadline := time.Now().Add(10 * time.Second)
 	for node.AppliedIndex() < node.LastIndex() && time.Now().Before(deadline) {
 		time.Sleep(200 * time.Microsecond)
